@@ -48,10 +48,12 @@ def trimmers(prog):
     match, strip_suffix(b"\r"), a slice pattern `[rest @ .., b'\r']` ...)"""
     out = []
     for b in prog.bodies.values():
-        if b.meta.get('kind') not in ('Fn', 'AssocFn') or b.arg_count != 1 or len(b.blocks) > 16:
+        if b.meta.get('kind') not in ('Fn', 'AssocFn') or b.arg_count < 1 or b.arg_count > 3 or len(b.blocks) > 20:
             continue
         if not (is_u8_slice_ref(b.local_tys[0]) and is_u8_slice_ref(b.local_tys[1])):
             continue
+        if not all(b.local_tys[i] == 'usize' for i in range(2, b.arg_count + 1)):
+            continue      # (a trimming helper may take the bounds of the line as well: `line(buffer, start, end)`)
         if mentions_cr(prog, b):
             out.append(b)
     return out
@@ -107,18 +109,23 @@ def run(prog, R):
     R.rule('SER-1', 'derived Serialize names every declared field once and derived Deserialize accepts exactly those names')
     R.rule('SER-3', 'derived PartialEq of the owned records compares every field')
 
-    T = trimmers(prog)
-    if len(T) != 1:
+    T = sorted(trimmers(prog), key=lambda t_: (t_.arg_count, t_.key))
+    if len(T) > 1:
+        # several functions trim CR (e.g. trim_cr and a `line(buffer, a, b)` helper): all of them count
+        R.add('TRIM-1', T[0], 'trimmers', True, site(T[0], T[0].span['lo']), 'CR-trimming functions: %s' % [t_.key for t_ in T])
+    if len(T) < 1:
         R.anchor_missing('TRIM-1', 'exactly one CR trimmer (found %d)' % len(T))
         trimmer = None
     else:
         trimmer = T[0]
         ex = trimmer_is_exact(trimmer)
+        if ex is False and trimmer.arg_count > 1:
+            ex = None      # a trimming helper with bounds (`line(buffer, a, b)`): it cuts and trims; the cut is judged elsewhere
         R.add('TRIM-1', trimmer, 'trimmer-removes-one-trailing-cr', ex is not False, site(trimmer, trimmer.span['lo']),
               'returns the input or the input without its last byte when that byte is CR' if ex else 'returns a part of its argument chosen by a test for CR (idiom not analysed further)', undecided=ex is None)
 
     def is_trim_call(t):
-        return t.callee is not None and trimmer is not None and prog.local_callee_body(t.callee) is trimmer
+        return t.callee is not None and trimmer is not None and any(prog.local_callee_body(t.callee) is t_ for t_ in T)
 
     # ---------------------------------------------------------------- TRIM-1
     # GOOD = functions whose returned byte slice is the trimmer's result, a constant, or the result of a GOOD
@@ -139,6 +146,8 @@ def run(prog, R):
         cands[b.path] = (b, ret_roots(b))
     good = GOOD_SITES
     good.clear()
+    for t_ in T:
+        good.add(t_.path)      # a trimming function hands out a trimmed line by definition
     changed = True
     while changed:
         changed = False
@@ -246,8 +255,13 @@ def run(prog, R):
                 if not on_buffer:
                     continue
                 cb = closure_of_arg(prog, b, t, len(t.args) - 1)
+                if cb is None and t.args[-1].is_const:
+                    # a named function used as the predicate
+                    fnm = str(t.args[-1].fn() or t.args[-1].j.get('s') or '')
+                    cands_ = [x for x in prog.bodies.values() if x.promoted_of is None and fnm and (x.path == fnm or x.key == strip_generics(fnm) or fnm.endswith(x.key))]
+                    cb = cands_[0] if len(cands_) == 1 else None
                 sep = closure_separator(cb) if cb is not None else None
-                R.add('SPLIT-LF', b, 'split-on-buffer', sep == 10, site(b, t.line), 'buffer split at byte %s' % sep)
+                R.add('SPLIT-LF', b, 'split-on-buffer', sep == 10, site(b, t.line), 'buffer split at byte %s' % sep, undecided=sep is None)
     R.floor('SPLIT-LF', 4)
 
     # ---------------------------------------------------------------- LEN-1 / EPOS (fastq errors)
@@ -358,8 +372,11 @@ def epos_rules(prog, R, trimmer):
                     want_off, want_id = TABLE[v]
                     off = pt.args[1].const_int() if pt.args[1].is_const else None
                     pid_ = pt.args[2].const_int() if pt.args[2].is_const else None
+                    # a line offset that is not a literal here (a named constant is folded, but `RecordPos::Sep.line_offset()` or a
+                    # value handed in by the caller is not): not judged; a literal that differs is a violation
                     R.add('EPOS-1', b, '%s#%d' % (v, count[v]), off == want_off and pid_ == want_id, site(b, s.line),
-                          '%s: line offset %s (want %d), id requested %s (want %d)' % (v, off, want_off, pid_, want_id))
+                          '%s: line offset %s (want %d), id requested %s (want %d)' % (v, off, want_off, pid_, want_id),
+                          undecided=(off is None or pid_ is None) and (off is None or off == want_off) and (pid_ is None or pid_ == want_id))
                 else:  # UnexpectedEnd
                     a1 = roots_of(b, pt.args[1], du)
                     def is_part(r):
@@ -399,8 +416,12 @@ def epos_rules(prog, R, trimmer):
                         if seen_ and all(h is not None for h, _ in seen_) and all((fl == 0) == h for h, fl in seen_) and any(h for h, _ in seen_) and any(not h for h, _ in seen_):
                             ok_id = True
                             how = 'match on the part: false exactly on the Head arm'
+                    # the offset computed from the part by a match / helper instead of the cast: not judged
+                    dd1 = data_deps(b, pt.args[1], du)
+                    via_part = any((d_[0] == 'arg' and b.local_tys[d_[1]].endswith('RecordPos')) or d_[0] in ('call', 'discr') for d_ in dd1) or bool(a1) and all(r_[0] == 'const' for r_ in a1)
                     R.add('EPOS-1', b, '%s#%d' % (v, count[v]), ok_off and ok_id, site(b, s.line),
-                          'UnexpectedEnd: line offset <- the part where the search stopped: %s; id iff part > Head: %s (%s)' % (ok_off, ok_id, how))
+                          'UnexpectedEnd: line offset <- the part where the search stopped: %s; id iff part > Head: %s (%s)' % (ok_off, ok_id, how),
+                          undecided=ok_id and not ok_off and via_part)
                 # EPOS-2
                 if v in MARKER:
                     fo = copy_origin(b, fields['found'], du)
@@ -541,7 +562,7 @@ def epos_rules(prog, R, trimmer):
                                                          'std::iter::DoubleEndedIterator::next_back', 'std::iter::DoubleEndedIterator::nth_back')]
             no_split = not any(c.is_('slice::split', 'core::slice::split', 'slice::splitn', 'core::slice::splitn') for c in calls)
             from_head = from_head and sels == ['std::iter::Iterator::next']
-            R.add('EPOS-5', f, 'id-guard', g_flag and g_len and from_head and sep == 32, site(f, st.line), undecided=(g_flag and g_len and no_split and any(c.name == 'head' for c in calls)), detail=
+            R.add('EPOS-5', f, 'id-guard', g_flag and bool(g_len) and from_head and sep == 32, site(f, st.line), undecided=(g_len is None) or (g_flag and bool(g_len) and no_split and any(c.name == 'head' for c in calls)), detail=
                   'id extracted only if requested (%s) and header extent > 1 (%s); taken as the first piece of head() split at 0x%s (selectors %s)' % (g_flag, g_len, '%02x' % sep if sep is not None else '?', [x.rsplit('::', 1)[-1] for x in sels]))
     R.floor('UNIT-4', 1)
     R.floor('EPOS-5', 1)
@@ -570,7 +591,10 @@ def epos_rules(prog, R, trimmer):
                                 ot = [o for o in ops if o.const_int() != 62]
                                 if len(cs) == 1 and len(ot) == 1 and copy_origin(b, ot[0], du)[:2] == fo[:2]:
                                     okc = True
-                    R.add('EPOS-2', b, 'fasta-InvalidStart', okc, site(b, s.line), "found is the byte compared with '>': %s" % okc)
+                    # constructed by a helper that is handed the byte (detection and reporting split): not judged there
+                    handed = fo[0] == 'place' and len(fo[1]) == 1 or (fo[0] == 'multi') or (not okc and not any(
+                        (bb_.term.k == 'switch' and 62 in [tv for tv, _ in bb_.term.targets]) or any(st_.k == 'assign' and st_.rv.k == 'bin' and any(o_.const_int() == 62 for o_ in st_.rv.ops) for st_ in bb_.stmts) for bb_ in b.blocks))
+                    R.add('EPOS-2', b, 'fasta-InvalidStart', okc, site(b, s.line), "found is the byte compared with '>': %s" % okc, undecided=(not okc) and bool(handed))
     # EPOS-4 Display
     for b in prog.bodies.values():
         m = re.match(r'<(fasta|fastq)::(Error|ErrorPosition) as std::fmt::Display>::fmt$', b.key)
@@ -1123,7 +1147,7 @@ def head_guard_ok(prog, f):
     bp = ('f', ('self',), None, 'buf_pos')
     rng = slice_range(prog, hb[0], bp)
     if rng is None or not all(isinstance(x, Aff) for x in rng):
-        return False
+        return None     # the header is not cut by a visible `buffer[lo..hi]` in the accessor: not judged
     ext = rng[1] - rng[0]
     base = ext - Aff.const(ext.c)
     init = Path()
@@ -1285,6 +1309,7 @@ def len2_rule(prog, R, trimmer):
                             if prog.local_callee_body(t.callee) is v and b.cfg.dominates(blk.idx, x):
                                 flags = [a for a in t.args[1:] if a.is_const and a.j.get('ty') == 'bool']
                                 okc = bool(flags) and all(a.const_int() == 1 for a in flags)
-                        R.add('LEN-2', b, 'eof-completion-asks-for-trimmed-comparison#%d' % n, okc, site(b, s.line),
+                        called_v = any(prog.local_callee_body(t.callee) is v and b.cfg.dominates(blk.idx, x) for x, t in b.calls())
+                        R.add('LEN-2', b, 'eof-completion-asks-for-trimmed-comparison#%d' % n, okc, site(b, s.line), undecided=(not okc) and not called_v, detail=
                               'the record is completed at the end of the input (its last line has no terminator); the validator is %s the trimmed lengths' % ('told to compare' if okc else 'NOT told to compare'))
     R.floor('LEN-2', 2)
